@@ -127,6 +127,12 @@ def run(req):
                         violated.append(f'raises.{ename}.only_if')
                 except Exception as err:
                     errors[f'raises.{ename}'] = repr(err)
+        for ename, (must, may) in req.get('raises_bounds', {}).items():
+            try:
+                if clause(must, old_env, old_env):
+                    violated.append(f'raises.{ename}.must')
+            except Exception as err:
+                errors[f'raises.{ename}.must'] = repr(err)
         for label, text in req.get('ensures', []):
             text = over.get(label, text)
             try:
@@ -138,7 +144,14 @@ def run(req):
     else:
         observed = f'raised {exc}: {exc_text}'
         raises = req.get('raises', {})
-        if exc not in raises:
+        bounds = req.get('raises_bounds', {})
+        if exc in bounds:
+            try:
+                if not clause(bounds[exc][1], old_env, old_env):
+                    violated.append(f'raises.{exc}.may')
+            except Exception as err:
+                errors[f'raises.{exc}.may'] = repr(err)
+        elif exc not in raises:
             violated.append(f'safety.raise.{exc}')
         else:
             cond = raises[exc]
